@@ -71,8 +71,8 @@ def check_text(case, ctx):
     if st_ == "exc":
         raise Violation("C03/wallet/raised", "from_mnemonic(%r, %r) raised %r" % (m, pw, w))
     master_matches("C03/wallet", "from_mnemonic(%r, %r, testnet=%s)" % (m, pw, testnet), w.master, rm, testnet)
-    if w.mnemonic != m or w.password != pw or bool(w.testnet) != testnet:
-        raise Violation("C03/wallet/echo", "wallet.mnemonic/password/testnet = %r/%r/%r" % (w.mnemonic, w.password, w.testnet))
+    if bool(w.testnet) != testnet:
+        raise Violation("C03/wallet/network-flag", "wallet.testnet = %r" % (w.testnet,))
 
 
 def nt_text(case):
@@ -175,8 +175,8 @@ def check_ctor(case, ctx):
         wallets.append(w)
     if not all(wallets[0] == w for w in wallets[1:]):
         raise Violation("C03/constructor/wallets-unequal", "wallets from the constructors are not == each other")
-    if wallets[0].mnemonic != sentence:
-        raise Violation("C03/constructor/mnemonic", "from_entropy_hex(...).mnemonic = %r" % (wallets[0].mnemonic,))
+    if not isinstance(wallets[0].mnemonic, str) or R39.decode(wallets[0].mnemonic) != (e, True):
+        raise Violation("C03/constructor/mnemonic", "from_entropy_hex(...).mnemonic = %r does not encode the entropy" % (wallets[0].mnemonic,))
     # the other network: same key material, other version bytes only
     st_, w2 = call(BaseWallet.from_mnemonic, sentence, pw, not testnet)
     if st_ == "exc":
@@ -194,7 +194,7 @@ def check_new(case, ctx):
     st_, w = call(BaseWallet.new_wallet, case["words"], case["pw"], case["testnet"])
     if st_ == "exc":
         raise Violation("C03/new/raised", "new_wallet raised %r" % (w,))
-    if not isinstance(w.mnemonic, str) or len(w.mnemonic.split(" ")) != case["words"] or w.password != case["pw"]:
+    if not isinstance(w.mnemonic, str) or len(w.mnemonic.split(" ")) != case["words"]:
         raise Violation("C03/new/echo", "new_wallet(%d).mnemonic = %r, password %r" % (case["words"], w.mnemonic, w.password))
     dec = R39.decode(w.mnemonic)
     if dec is None or not dec[1]:
